@@ -67,13 +67,22 @@ def main():
             props = a.split('=', 1)[1].split(',') if '=' in a else props
     keep = os.path.join(VERIF, 'seeded', sid)
     wt = '/tmp/seedwt_%s_%d' % (sid, os.getpid())
+    own_wt = None
+    for a in args:
+        if a.startswith('--wt='):
+            own_wt = a.split('=', 1)[1]     # confirm in the worktree the demo was written for (some demos assert their path)
+            wt = own_wt
     rec = {'seed': sid, 'property': pid, 'summary': meta.get('summary'), 'needs': meta.get('needs'), 'at': time.strftime('%Y-%m-%dT%H:%M:%SZ', time.gmtime())}
-    sh('git -C /repo worktree add --detach %s HEAD' % wt)
+    if own_wt is None:
+        sh('git -C /repo worktree add --detach %s HEAD' % wt)
+    else:
+        sh('git checkout -- csep', cwd=wt)
     try:
         env = dict(os.environ, PYTHONPATH=wt, PYTHONWARNINGS='ignore', MPLBACKEND='Agg')
         os.makedirs(os.path.join(wt, '_seed', k), exist_ok=True)
         for f in ('patch.diff', 'demo.py', 'meta.json'):
-            shutil.copy(os.path.join(seed, f), os.path.join(wt, '_seed', k, f))
+            if os.path.abspath(os.path.join(seed, f)) != os.path.abspath(os.path.join(wt, '_seed', k, f)):
+                shutil.copy(os.path.join(seed, f), os.path.join(wt, '_seed', k, f))
         demo = '%s _seed/%s/demo.py' % (PY, k)
         rc0, out0 = sh(demo, cwd=wt, env=env)
         base = passing_tests(wt)
@@ -113,7 +122,10 @@ def main():
                                 'undecided': [l.strip()[:200] for l in lines if 'UNDECIDED' in l][:3]}
         rec['detected'] = any(v['exit'] == 1 for v in rec['checks'].values())
     finally:
-        sh('git -C /repo worktree remove --force %s' % wt)
+        if own_wt is None:
+            sh('git -C /repo worktree remove --force %s' % wt)
+        else:
+            sh('git checkout -- csep', cwd=wt)
     resd = os.path.join(VERIF, 'seeded', 'results')
     os.makedirs(resd, exist_ok=True)
     json.dump(rec, open(os.path.join(resd, sid + '.json'), 'w'), indent=1)
